@@ -23,7 +23,8 @@ def corrupt(rng, sql):
         return "short", sql + " )"
     for _ in range(8):
         k = rng.choice(["delete", "duplicate", "replace", "truncate"])
-        i = rng.randrange(1, len(ts))
+        # the first token is corrupted too (a segment that no longer begins with a statement keyword)
+        i = rng.randrange(0, len(ts)) if k in ("delete", "replace") and rng.random() < 0.25 else rng.randrange(1, len(ts))
         if k == "delete":
             out = ts[:i] + ts[i + 1:]
         elif k == "duplicate":
@@ -63,9 +64,17 @@ def scripts(rng, n, maxseg=6):
         segs = []
         for _ in range(k):
             s = rng.choice(base)
-            if rng.random() < 0.4:
+            x = rng.random()
+            if x < 0.3:
                 kind, s2 = corrupt(rng, s)
                 segs.append((s2, kind))
+            elif x < 0.4:
+                # a complete statement followed by stray tokens (no semicolon in between)
+                segs.append((s + " " + rng.choice([")", "t t", "xyz 5", ", ,", "= =", "'s' 1", ") ) a"]), "junk_suffix"))
+            elif x < 0.5:
+                # a malformed segment that does not begin with a statement keyword
+                ts = toks(s)
+                segs.append((rng.choice(["x", ") a", "a b c", "1 + 2", " ".join(ts[1:]) or "y", ", " + " ".join(ts[1:4])]), "no_keyword"))
             else:
                 segs.append((s, "valid"))
         out.append(segs)
@@ -84,6 +93,9 @@ def join(rng, segs):
     if rng.random() < 0.5:
         parts.append(rng.choice([";", ";;", "; "]))
     return "".join(parts)
+
+
+LEXBAD = ["SELECT 'abc", "SELECT a FROM t WHERE b = 'x", "SELECT \"col FROM t", "SELECT 1 /* open", "SELECT `a FROM t", "SELECT 1e FROM t", "SELECT 'a' 'b"]
 
 
 def soup(rng, n, maxlen=14):
